@@ -5,6 +5,14 @@ From Amgcl Require Import Scalar Vec Crs Kernels KernelsProofs MatOps MatOpsProo
      DirectUtil Qr QrMathRefl TentativeQr TentativeQrProofs TentativeQrGuard TentativeQrPolicies EminProofs EminProofs2.
 Local Open Scope S_scope.
 
+Lemma pointwise_aggregates_fx_ok {S : Scalar} (fx : bool) (eps2 : S) bs mina (A : crs S) junk count id st :
+  pointwise_aggregates_fx fx eps2 bs mina A junk = AggOk count id st ->
+  pointwise_aggregates eps2 bs mina A junk = AggOk count id st /\ (fx = true -> 0 < count).
+Proof.
+  unfold pointwise_aggregates_fx. destruct (pointwise_aggregates eps2 bs mina A junk) as [| |c i0 s0]; try discriminate.
+  destruct c as [|c]; [destruct fx; [discriminate|]|]; intro H; injection H as <- <- <-; (split; [reflexivity|]); intro; try discriminate; lia.
+Qed.
+
 Section Pipeline.
 Variable S : Scalar.
 Hypothesis Sft : Sfield S.
@@ -14,9 +22,9 @@ Hypothesis Habs : forall x : S, (sabs x * sabs x = x * x)%S.
 Hypothesis Hsqrt : forall y : S, sos y -> (ssqrt y * ssqrt y = y)%S.
 Hypothesis Hreal : forall y x : S, sos y -> (y + x * x = s0)%S -> y = s0.
 
-Theorem aggregation_ns_exact (eps2 : S) (cols : nat) (A : crs S) (junk : vec S) (B : mat (S:=S)) (q0 : vec S) P R Bc :
+Theorem aggregation_ns_exact (fx : bool) (eps2 : S) (cols : nat) (A : crs S) (junk : vec S) (B : mat (S:=S)) (q0 : vec S) P R Bc :
   0 < cols ->
-  aggregation_transfer_ns eps2 1 cols A junk B q0 = (TrOk P R, Bc) ->
+  aggregation_transfer_ns fx eps2 1 cols A junk B q0 = (TrOk P R, Bc) ->
   exists count id st,
     pointwise_aggregates eps2 1 cols A junk = AggOk count id st /\
     R = transpose P /\ nrows P = nrows A /\ ncols P = (cols * count)%nat /\
@@ -26,9 +34,10 @@ Theorem aggregation_ns_exact (eps2 : S) (cols : nat) (A : crs S) (junk : vec S) 
        sumn (fun k => mget P k j1 * mget P k j2) (nrows P) = if Nat.eqb j1 j2 then s1 else s0).
 Proof.
   intros Hc. unfold aggregation_transfer_ns, with_tentative_ns.
-  destruct (pointwise_aggregates eps2 1 cols A junk) as [| |count id st] eqn:E; try discriminate.
+  destruct (pointwise_aggregates_fx fx eps2 1 cols A junk) as [| |count id st] eqn:E; try discriminate.
+  apply pointwise_aggregates_fx_ok in E as [E _].
   cbv zeta. cbn [fst snd]. intro H. injection H as <- <- <-.
-  exists count, id, st. split; [reflexivity|]. split; [reflexivity|].
+  exists count, id, st. split; [exact E|]. split; [reflexivity|].
   exact (nullspace_pipeline_exact S Sft Seqb Hadj Habs Hsqrt Hreal eps2 cols A junk count id st B q0 Hc E).
 Qed.
 
@@ -52,8 +61,8 @@ Proof.
   apply (sorted_seq_row (Nat.div (Z.to_nat (snd ka)) bs * cols)).
 Qed.
 
-Theorem emin_ns_formulas nt (eps2 : S) (cols : nat) (A : crs S) (junk : vec S) (B : mat (S:=S)) (q0 : vec S) P R Bc :
-  emin_transfer_ns nt eps2 1 cols A junk B q0 = (TrOk P R, Bc) ->
+Theorem emin_ns_formulas (fx : bool) nt (eps2 : S) (cols : nat) (A : crs S) (junk : vec S) (B : mat (S:=S)) (q0 : vec S) P R Bc :
+  emin_transfer_ns fx nt eps2 1 cols A junk B q0 = (TrOk P R, Bc) ->
   exists count id st,
     pointwise_aggregates eps2 1 cols A junk = AggOk count id st /\
     (nt <= 16 -> wf A = true -> ncols A = nrows A -> emin_regular A st = true ->
@@ -62,9 +71,10 @@ Theorem emin_ns_formulas nt (eps2 : S) (cols : nat) (A : crs S) (junk : vec S) (
        mget P i j = emin_P_spec A st Pt i j /\ mget R j i = emin_R_spec A st Pt j i).
 Proof.
   unfold emin_transfer_ns, with_tentative_ns.
-  destruct (pointwise_aggregates eps2 1 cols A junk) as [| |count id st] eqn:E; try discriminate.
+  destruct (pointwise_aggregates_fx fx eps2 1 cols A junk) as [| |count id st] eqn:E; try discriminate.
+  apply pointwise_aggregates_fx_ok in E as [E _].
   cbv zeta. cbn [fst snd]. intro H. injection H as <- <- <-.
-  exists count, id, st. split; [reflexivity|].
+  exists count, id, st. split; [exact E|].
   intros Hnt HwfA Hsq Hreg i j Hi Hj.
   destruct (min_aggregate_guard eps2 cols A junk count id st E) as (HL & _ & _).
   apply (emin_formulas_hold S Sft Hadj nt A st _ Hnt HwfA Hsq Hreg); try assumption.
